@@ -38,6 +38,7 @@ type c11Opts struct {
 	deferredNames  bool // names/calls inside deferred blocks
 	packages       bool
 	localDecls     bool // Name()/CreateField inside method bodies
+	type6Targets   bool // RefOf/DerefOf/Index written where a SuperName is expected
 	nestedDeferred bool // If/Else/While nested inside deferred blocks (restricted to what open finding K9 leaves intact)
 	bigPkg         bool // force 2/3/4-byte package length encodings
 	maxStmts       int
@@ -51,7 +52,7 @@ func c11DefaultOpts(r *vlib.Rand) *c11Opts {
 		scopeDirs: r.Chance(4, 5), scopeInDevice: r.Chance(1, 2), forwardConts: r.Chance(2, 3),
 		fields: r.Chance(3, 4), indexFields: r.Chance(1, 2), bankFields: r.Chance(1, 2), connections: r.Chance(1, 2),
 		bodies: r.Chance(5, 6), calls: r.Chance(5, 6), nestedCalls: r.Chance(3, 4),
-		deferred: r.Chance(3, 4), deferredNames: r.Chance(3, 4), packages: r.Chance(3, 4), localDecls: r.Chance(2, 3), nestedDeferred: r.Chance(2, 3),
+		deferred: r.Chance(3, 4), deferredNames: r.Chance(3, 4), packages: r.Chance(3, 4), localDecls: r.Chance(2, 3), nestedDeferred: r.Chance(2, 3), type6Targets: r.Chance(1, 2),
 		bigPkg: r.Chance(1, 3), maxStmts: r.Range(1, 6), maxExprDepth: r.Range(1, 4),
 	}
 	c11ApplyOverride(o)
@@ -64,7 +65,7 @@ func c11ApplyOverride(o *c11Opts) {
 	flags := map[string]*bool{"absNames": &o.absNames, "devPathNames": &o.devPathNames, "siblingNames": &o.siblingNames, "caretNames": &o.caretNames,
 		"scopeDirs": &o.scopeDirs, "scopeInDevice": &o.scopeInDevice, "fields": &o.fields, "indexFields": &o.indexFields, "bankFields": &o.bankFields, "connections": &o.connections,
 		"bodies": &o.bodies, "calls": &o.calls, "nestedCalls": &o.nestedCalls, "deferred": &o.deferred, "deferredNames": &o.deferredNames,
-		"packages": &o.packages, "localDecls": &o.localDecls, "bigPkg": &o.bigPkg, "nestedDeferred": &o.nestedDeferred}
+		"packages": &o.packages, "localDecls": &o.localDecls, "bigPkg": &o.bigPkg, "nestedDeferred": &o.nestedDeferred, "type6Targets": &o.type6Targets}
 	ints := map[string]*int{"tables": &o.tables, "maxDepth": &o.maxDepth, "itemsPerBlock": &o.itemsPerBlock, "maxStmts": &o.maxStmts, "maxExprDepth": &o.maxExprDepth}
 	apply := func(list string, only bool) {
 		if list == "" {
@@ -588,8 +589,43 @@ func (x *c11Ctx) leaf() *c11Expr {
 	return c11Int(uint64(r.Intn(256)), r)
 }
 
-func (x *c11Ctx) superName() *c11Expr {
+func (x *c11Ctx) superName() *c11Expr { return x.superNameD(2) } // simple names only
+
+// type6OK reports whether operand i of spec may be written as a Type6 opcode (RefOf/DerefOf/Index): the first
+// pass leaves the operands of such an opcode for the second pass, so operands of the enclosing operator that
+// follow it are only found when they are TermArgs (open findings K15b, K15c); CopyObject takes a SimpleName.
+func c11Type6OK(spec *c11OpSpec, i int) bool {
+	if spec.name == "CopyObject" {
+		return false
+	}
+	for _, k := range spec.args[i+1:] {
+		if k != c11AT {
+			return false
+		}
+	}
+	return true
+}
+
+func (x *c11Ctx) superNameD(depth int) *c11Expr {
 	r := x.g.r
+	if x.g.o.type6Targets && depth < 2 && r.Chance(1, 6) {
+		// Type6Opcode as SuperName: RefOf(SuperName), DerefOf(TermArg), Index(TermArg, TermArg, Target)
+		x.g.feat["type6_supername"]++
+		switch r.Intn(3) {
+		case 0:
+			e := &c11Expr{kind: c11EOp, op: pOpRefOf, spec: c11OpByName("RefOf")}
+			e.args = []*c11Expr{x.superNameD(depth + 1)}
+			return e
+		case 1:
+			e := &c11Expr{kind: c11EOp, op: pOpDerefOf, spec: c11OpByName("DerefOf")}
+			e.args = []*c11Expr{x.leaf()}
+			return e
+		default:
+			e := &c11Expr{kind: c11EOp, op: pOpIndex, spec: c11OpByName("Index")}
+			e.args = []*c11Expr{x.leaf(), x.leaf(), &c11Expr{kind: c11ENull}}
+			return e
+		}
+	}
 	switch r.Intn(6) {
 	case 0, 1:
 		if x.inMethod {
@@ -651,10 +687,16 @@ func (x *c11Ctx) opExpr(spec *c11OpSpec, depth int) *c11Expr {
 		case c11AT:
 			e.args = append(e.args, x.expr(depth+1))
 		case c11AS:
-			e.args = append(e.args, x.superName())
+			if c11Type6OK(spec, i) {
+				e.args = append(e.args, x.superNameD(0))
+			} else {
+				e.args = append(e.args, x.superName())
+			}
 		case c11AG:
 			if r.Bool() {
 				e.args = append(e.args, &c11Expr{kind: c11ENull})
+			} else if c11Type6OK(spec, i) {
+				e.args = append(e.args, x.superNameD(0))
 			} else {
 				e.args = append(e.args, x.superName())
 			}
